@@ -19,6 +19,8 @@ ASSUMPTIONS = ["'linear' is only claimed inside the data range (numpy clamps out
 ANCHORS = {"process.py": [(32, 45), (80, 87)], "weaver.py": [(413, 422)]}
 EXPLANATION = "pointwise definitions evaluated on every element of a bounded lattice"
 METHODS = ["linear", "constant", "cubic", "spline"]
+POISON = {"linear": {"left": -77.0, "right": 55.0}, "constant": {"left": -77.0}, "cubic": {"bc_type": "natural", "extrapolate": False},
+          "spline": {"s": 25.0}}
 
 
 def bounds(tier, seed):
@@ -26,7 +28,14 @@ def bounds(tier, seed):
     return {"k": "4..5" if q else "4..6", "new_grid_points": "<=2" if q else "<=3 (spanning values), <=2 (all of V^4)", "weaver_n": "2..12"}
 
 
-def _interp(method, x, y, new_x, grid_type="float-array"):
+def _xarr(x, x_type):
+    """how the caller writes the sample abscissae: float64 array, int64 array / list of ints (integral grids)"""
+    if x_type in ("int-array", "int-list") and all(float(v) == int(v) for v in x):
+        return np.array([int(v) for v in x], dtype=np.int64) if x_type == "int-array" else [int(v) for v in x]
+    return np.array(x, dtype=float)
+
+
+def _interp(method, x, y, new_x, grid_type="float-array", x_type="float-array", kwargs=None):
     """grid_type: how the caller writes the new grid - float array, integer array, list of ints
     (the latter two only when every point is integral)"""
     from traffic_weaver.process import interpolate
@@ -36,7 +45,7 @@ def _interp(method, x, y, new_x, grid_type="float-array"):
         g = np.array(new_x, dtype=float)
     with warnings.catch_warnings():
         warnings.simplefilter("ignore")
-        return interpolate(np.array(x, dtype=float), np.array(y, dtype=float), g, method=method)
+        return interpolate(_xarr(x, x_type), np.array(y, dtype=float), g, method=method, **(kwargs or {}))
 
 
 @kind("interp")
@@ -44,7 +53,13 @@ def check_interp(case):
     x, y, new_x, method = case["x"], case["y"], case["new_x"], case["method"]
     key = {"method": method}
     try:
-        got = _interp(method, x, y, new_x, case.get("grid_type", "float-array"))
+        if case.get("poison"):
+            # history: the same method was called before with method-specific options (they must not stick)
+            try:
+                _interp(method, x, y, new_x, kwargs=POISON[method])
+            except Exception:
+                pass
+        got = _interp(method, x, y, new_x, case.get("grid_type", "float-array"), case.get("x_type", "float-array"))
     except Exception as e:  # noqa
         return [fail("raised", {"exception": repr(e)}, dict(key, exc=type(e).__name__))], None
     if got is None or len(got) != len(new_x):
@@ -161,7 +176,15 @@ def harnesses(tier, seed):
                   nontrivial=False)
         for gi, ng in enumerate(newgrids):
             judge(ctx, check_interp, {"x": x, "y": y, "new_x": ng, "method": method, "affine": aff,
-                                      "grid_type": ("float-array", "int-array", "int-list")[gi % 3]}, bulk=True, nontrivial=True)
+                                      "grid_type": ("float-array", "int-array", "int-list")[gi % 3],
+                                      "x_type": ("float-array", "float-array", "int-array", "int-list")[(gi // 3) % 4],
+                                      "poison": gi % 5 == 2}, bulk=True, nontrivial=True)
+        # the same series moved to negative abscissae (fractional new points below zero)
+        xn = [v - 6.0 for v in x]
+        affn = None if aff is None else (aff[0], aff[1] + 6.0 * aff[0])
+        for gi, ng in enumerate(newgrids[::3]):
+            judge(ctx, check_interp, {"x": xn, "y": y, "new_x": [v - 6.0 for v in ng], "method": method, "affine": affn,
+                                      "x_type": ("int-array", "float-array", "int-list")[gi % 3]}, bulk=True, nontrivial=True)
         if len(g) == 4 and yi == 1 and method == "constant":
             ctx.sample({"x": x, "y": y, "method": method, "new_grids": "all sorted tuples of <=%d half-lattice points" % maxpts})
 
